@@ -58,12 +58,14 @@ deriving Repr, Inhabited
 def checkNode (o : Oracle) (r : RunObs) (role : Role) (s : NSpec) (offered : List String) : List Viol :=
   let ob := obsOf r s.idx
   let isH := role = .handler
+  -- nothing the node was handed may be missing from what it was offered (duplicated / invented), and — unless the node itself
+  -- discards — nothing it was offered may be missing from what it was handed (lost); both can happen in one run
   let conservation : List Viol :=
-    if !subMultiset ob.recv offered then
-      [⟨if isH then "C02" else "C01", if isH then "error-report-duplicated-or-foreign" else "event-duplicated-or-invented"⟩]
-    else if !s.discard && ob.recv.length < offered.length then
+    (if !subMultiset ob.recv offered then
+      [⟨if isH then "C02" else "C01", if isH then "error-report-duplicated-or-foreign" else "event-duplicated-or-invented"⟩] else []) ++
+    (if !s.discard && !subMultiset offered ob.recv then
       [⟨if isH then "C02" else "C01", if isH then "error-report-lost" else "event-lost"⟩, ⟨"C04", "lost-without-discard"⟩, ⟨"C03", "not-drained-at-return"⟩]
-    else []
+    else [])
   let identity : List Viol := if ob.bad ≠ "-" then [⟨"C02", "report-does-not-carry-original-event-and-error"⟩] else []
   let discardAcc : List Viol :=
     if ob.discarded + ob.recv.length ≠ offered.length && subMultiset ob.recv offered then [⟨"C04", "discard-not-counted"⟩, ⟨"C16", "discarded-counter"⟩] else []
